@@ -36,6 +36,7 @@ def check(tier, seed):
                            "the KPM solver accepts H_0 + c for every shift c within the property's quantifier (gap/|energy| > 1e-5); the witness is replayed on every run")
     d.run_battery("rel_battery.py", ["covariance"], "8 layouts (<= 3 blocks, n <= 5, full and selective diagonalization, Hermitian and non-Hermitian-exact), all block "
                   "relabellings, one random state permutation, random unitaries inside degenerate levels, conjugation, 2 shifts, 2 scales, direct sum with a 3-level system; orders <= 3")
+    d.run_battery("rel_battery.py", ["covariance_masks"], "3 blocks (3 + 3 + 1 states), 3 mask dictionaries, all 6 relabellings x 2 key orders, orders <= 3")
     d.run_battery("rel_battery.py", ["covariance_implicit"], "implicit mode with the direct solver, n = 9 (+7), 3 (+2) explicit levels, real / complex: 3 permutations of the explicit "
                   "eigenvectors, shift, direct sum of two systems whose explicit levels interleave in energy; orders <= 3")
     return d.finish(level="proof", trusted_base=["leanalg/lean/PV/*.lean", "leanalg/genlean.py", "leanalg/extract.py", "contracts/*.py"])
